@@ -156,6 +156,9 @@ def check_C09(ctx):
             continue
         bad, impl, model, cases = bar_mismatches(ctx, run, c09_project_case)
         bar_coverage(ctx, run)
+        if run is not None and "crosschecked" not in ctx.cov:
+            ctx.cov["crosschecked"] = True
+            extraction_crosscheck(ctx, run, 60 if ctx.tier == "quick" else 400)
         for k in bad[:3]:
             small = bar_shrink(ctx, cases[k], c09_project_case)
             ctx.add_violation("implementation and documented rules (model) disagree on a bar that has not reached a terminal state",
@@ -164,6 +167,72 @@ def check_C09(ctx):
                                "impl": impl.get(k), "model": model.get(k), "run_seed": run["seed"]})
             found = True
     report_broken_obligations(ctx, found)
+
+
+
+def extraction_crosscheck(ctx, run, limit=150):
+    """bound the trust in extraction + OCaml glue: the same cases are evaluated inside Coq (vm_compute over BarState.brun)
+    and the final observation is compared with what bin/mpbmodel printed"""
+    cases = group_cases(read_lines(os.path.join(run["dir"], "cases.txt")))
+    model = group_obs(read_lines(os.path.join(run["dir"], "model.txt")))
+
+    def zlit(x):
+        return "(%s)" % x if x.startswith("-") else x
+
+    def blit(x):
+        return "true" if x == "1" else "false"
+
+    terms, expect = [], []
+    for k in sorted(cases)[:limit]:
+        lines = cases[k]
+        hdr = lines[0].split()
+        if any("REFUSED" in l for l in model.get(k, [])) or not model.get(k):
+            continue
+        evs = []
+        for l in lines[1:]:
+            f = l.split()
+            if f[0] == "o":
+                op = {"Incr": lambda a: "IncrInt64 %s" % zlit(a[0]), "EIncr": lambda a: "EwmaIncrInt64 %s %s" % (zlit(a[0]), zlit(a[1])),
+                      "SetCur": lambda a: "SetCurrent %s" % zlit(a[0]), "ESetCur": lambda a: "EwmaSetCurrent %s %s" % (zlit(a[0]), zlit(a[1])),
+                      "SetTotal": lambda a: "SetTotal %s %s" % (zlit(a[0]), blit(a[1])), "Enable": lambda a: "EnableTriggerComplete",
+                      "SetRefill": lambda a: "SetRefill %s" % zlit(a[0]), "Abort": lambda a: "Abort %s" % blit(a[0])}.get(f[1])
+                if op:
+                    evs.append("Op (%s)" % op(f[2:]))
+            elif f[0] == "e" and f[1] in ("Render", "Cancel", "Exit"):
+                evs.append({"Render": "Render", "Cancel": "CtxCancel", "Exit": "Exit"}[f[1]])
+        last = model[k][-1].split()
+        terms.append("(binit %s %s false false, [%s])" % (zlit(hdr[3]), "true" if hdr[2] == "0" else "false", "; ".join(evs)))
+        expect.append((int(last[2]), last[3] == "1", last[4] == "1"))
+    if not terms:
+        return
+    vf = os.path.join(COQ, "CrossCheck_%s.v" % ctx.prop)
+    with open(vf, "w") as f:
+        f.write("From MPB Require Import Base BarState.\n"
+                "Definition fin (c : bst * list bev) : option (Z * bool * bool) := match brun (fst c) (snd c) with Some s => Some (obs s) | None => None end.\n"
+                "Definition cases : list (bst * list bev) := [\n  " + ";\n  ".join(terms) + "].\n"
+                "Eval vm_compute in map fin cases.\n")
+    rc, out = sh(["coqc", "-Q", ".", "MPB", os.path.basename(vf)], cwd=COQ, timeout=900)
+    for ext in (".v", ".vo", ".vok", ".vos", ".glob"):
+        try:
+            os.remove(vf[:-2] + ext)
+        except OSError:
+            pass
+    try:
+        os.remove(os.path.join(COQ, "." + os.path.basename(vf)[:-2] + ".aux"))
+    except OSError:
+        pass
+    got = [(int(a.replace("(", "").replace(")", "")), b == "true", c == "true")
+           for a, b, c in re.findall(r"Some\s*\(\s*(\(?-?\d+\)?),\s*(true|false),\s*(true|false)\)", out)]
+    ctx.cov["extraction_crosscheck"] = {"cases": len(expect), "evaluated_in_coq": len(got)}
+    if rc != 0 or len(got) != len(expect):
+        ctx.note("extraction cross-check could not be evaluated (rc=%d, %d of %d results)" % (rc, len(got), len(expect)))
+        ctx.internal_error = True
+        return
+    for i, (g, e) in enumerate(zip(got, expect)):
+        if g != e:
+            ctx.note("extraction cross-check: Coq evaluates case %d to %r, the extracted model printed %r" % (i, g, e))
+            ctx.internal_error = True
+            return
 
 
 # ---------------------------------------------------------------- C11
